@@ -312,12 +312,17 @@ func runC10(t *testing.T, x c10Scn, verbose bool) (c vfCase) {
 				if uint32(x.MinCwnd) > lim {
 					lim = uint32(x.MinCwnd)
 				}
+				// with a configured congestion-avoidance step the same SACK may first add that step
+				// (possibly more than cwnd itself) before the halving
+				if g := (prevCwnd + uint32(x.CAStep)) / 2; x.CAStep > 0 && g > lim {
+					lim = g
+				}
 				ssth := pk.SSThresh
 				if uint32(x.MinCwnd) > ssth {
 					ssth = uint32(x.MinCwnd)
 				}
 				if pk.CWND > lim || pk.CWND != ssth {
-					c.fail("cwnd-not-cut-on-fast-recovery", "t=%v: entered fast recovery with cwnd %d (ssthresh %d), cwnd before the SACK %d, expected cwnd = ssthresh <= max(previous cwnd, 4*MTU, MinCwnd) = %d", s.net.now(), pk.CWND, pk.SSThresh, prevCwnd, lim)
+					c.fail("cwnd-not-cut-on-fast-recovery", "t=%v: entered fast recovery with cwnd %d (ssthresh %d), cwnd before the SACK %d, expected cwnd = ssthresh <= max(previous cwnd, 4*MTU, MinCwnd, (previous cwnd + CA step)/2) = %d", s.net.now(), pk.CWND, pk.SSThresh, prevCwnd, lim)
 				}
 			}
 			if pk.PendingN > 0 && pk.InflightN > 0 {
